@@ -138,19 +138,40 @@ theorem bool_fixed_accept_iff_whole_string (ex : Extract Bool) (s : List Char) (
 
 /-- `"1.5abc"` converts to 1.5 as coded; the template rule and the repair reject it -/
 theorem double_accepts_1_5abc :
-    tryConvertDouble "1.5abc".toList = some (.fin ⟨false, 3 / 2⟩) ∧
+    tryConvertRealCoded extractDouble .nan (.inf false) (.inf true) "1.5abc".toList = some (.fin ⟨false, 3 / 2⟩) ∧
     tryConvertGeneric extractDouble "1.5abc".toList = none ∧
     tryConvertRealFixed extractDouble .nan (.inf false) (.inf true) "1.5abc".toList = none := by
   decide +kernel
 
 theorem float_accepts_1_5abc :
-    tryConvertFloat "1.5abc".toList = some (.fin ⟨false, 3 / 2⟩) ∧
+    tryConvertRealCoded extractFloat .nan (.inf false) (.inf true) "1.5abc".toList = some (.fin ⟨false, 3 / 2⟩) ∧
     tryConvertRealFixed extractFloat .nan (.inf false) (.inf true) "1.5abc".toList = none := by
   decide +kernel
 
 theorem bool_accepts_1abc :
-    tryConvertBool "1abc".toList = some true ∧ tryConvertBoolFixed extractBool "1abc".toList = none := by
+    tryConvertBoolCoded extractBool "1abc".toList = some true ∧ tryConvertBoolFixed extractBool "1abc".toList = none := by
   decide +kernel
+
+/-- the translator recognised the final `return` of all three specialised conversions in the current `String.cpp`
+(either the pinned `!sstream.fail()` or a fail/eof/ws/eof test); if this fails the model cannot follow the code -/
+theorem conversion_code_recognized :
+    Gen.recognizedBool = true ∧ Gen.recognizedFloat = true ∧ Gen.recognizedDouble = true := by
+  decide
+
+/-- **the documented rule for the code as it currently is**: once `String.cpp` ends the conversions with the whole-string
+test (`Gen.checksRest… = true`, i.e. after the repair) the model of `tryConvertToDouble/Float/Bool` accepts exactly the
+whole-string literals.  On the pinned tree the hypotheses are false and `double_accepts_1_5abc` etc. apply instead. -/
+theorem current_code_rule :
+    (Gen.checksRestDouble = true → ∀ s v, ¬ IsSpecialReal (cleanUp s) →
+        (tryConvertDouble s = some v ↔ WholeString extractDouble (cleanUp s) v)) ∧
+    (Gen.checksRestFloat = true → ∀ s v, ¬ IsSpecialReal (cleanUp s) →
+        (tryConvertFloat s = some v ↔ WholeString extractFloat (cleanUp s) v)) ∧
+    (Gen.checksRestBool = true → ∀ s v, cleanUp s ≠ "true".toList → cleanUp s ≠ "false".toList →
+        (tryConvertBool s = some v ↔ WholeString extractBool (cleanUp s) v)) := by
+  refine ⟨fun h s v hs => ?_, fun h s v hs => ?_, fun h s v h1 h2 => ?_⟩
+  · unfold tryConvertDouble; rw [if_pos h]; exact real_fixed_accept_iff_whole_string _ _ _ _ s v hs
+  · unfold tryConvertFloat; rw [if_pos h]; exact real_fixed_accept_iff_whole_string _ _ _ _ s v hs
+  · unfold tryConvertBool; rw [if_pos h]; exact bool_fixed_accept_iff_whole_string _ s v h1 h2
 
 /-- the `int` path (generic template) is right -/
 theorem int_rejects_15abc :
